@@ -5,7 +5,7 @@
    is the state after the schedule [sched] (any list of (thread, choice)); [mk_cfg] rounds the
    requested capacity as muggle_channel_init does; hypothesis [wk = WSingle -> nw <= 1] is the
    documented usage of MUGGLE_CHANNEL_FLAG_WRITE_SINGLE. *)
-From MV Require Import C01.Model C01.ModelQ C01.ProofsArith C01.ProofsSC C01.ProofsView C01.ProofsViewM C01.ProofsOrder C01.ProofsQ gen.Params_C01.
+From MV Require Import C01.Model C01.ModelQ C01.ProofsArith C01.ProofsSC C01.ProofsView C01.ProofsViewM C01.ProofsOrder C01.ProofsQ C01.ProofsQV C01.ProofsDV gen.Params_C01.
 Local Open Scope Z_scope.
 
 (* side condition on the code's memory orders: release on every store of write_cursor, acquire
@@ -137,3 +137,34 @@ Theorem dbuf_batches_in_order : forall cap nb mt nw total ks sched,
   d_read s ++ batch (d_datas s (negb (d_front s))) (Z.to_nat (d_cnt s (negb (d_front s)))).
 Proof. exact dbuf_batches_in_order_all. Qed.
 Print Assumptions dbuf_batches_in_order.
+
+(* array blocking queue, hand-over: no plain read of a consumer (array slot under the mutex, payload
+   after the take) is uncovered; the item a consumer is about to return was put and the payload its
+   producer wrote before the put is in the consumer's view *)
+Theorem abq_payload_visible : forall cap np n ks sched t m, 0 < cap ->
+  let s := qreach cap np n ks sched in
+  q_uncov s = 0%nat /\
+  (q_is_prod s t = false -> qafter (q_pc (q_thr s t)) = true -> q_d (q_thr s t) = Some m ->
+   In m (q_putl s) /\ vget (q_view (q_thr s t)) (CPay m) = q_pver s m).
+Proof. exact abq_payload_visible_all. Qed.
+Print Assumptions abq_payload_visible.
+
+(* double buffer, hand-over: no plain read of the reader (batch entries and payloads, outside the
+   mutex) is uncovered; every entry of the batch it holds was written and its payload is visible *)
+Theorem dbuf_payload_visible : forall cap nb mt nw total ks sched k m,
+  let s := dreach cap nb mt nw total ks sched in
+  d_uncov s = 0%nat /\
+  (dbatch_pc (d_pc (d_thr s 0%nat)) = true -> Z.of_nat k < d_cnt s (d_front s) ->
+   d_datas s (d_front s) (Z.of_nat k) = Some m ->
+   In m (d_written s) /\ vget (d_view (d_thr s 0%nat)) (CPay m) = d_pver s m).
+Proof. exact dbuf_payload_visible_all. Qed.
+Print Assumptions dbuf_payload_visible.
+
+(* double buffer: a write is refused (non-blocking) or put to sleep (blocking) only when the back
+   buffer really holds capacity items, the reader sleeps only when it is empty; the back buffer's
+   count always equals accepted minus handed-over *)
+Theorem dbuf_full_only_if_full : forall cap nb mt nw total ks sched,
+  let s := dreach cap nb mt nw total ks sched in
+  d_badwait s = 0%nat /\ d_cnt s (negb (d_front s)) = d_pending s.
+Proof. exact dbuf_full_only_if_full_all. Qed.
+Print Assumptions dbuf_full_only_if_full.
